@@ -9,6 +9,7 @@ package c07
 import (
 	"io"
 	"os"
+	"sort"
 	"strings"
 
 	"github.com/benoitkugler/webrender/logger"
@@ -47,6 +48,9 @@ func pick(tier string, q, t int) int {
 
 // sigma0: one symbol per code-point class of CSS Syntax §4 plus every literal the tokenizer tests.
 var sigma0 = append(split("aeuU-\\0.+/*\"'\n (){}[];:!#@%<>,?=|é"), "\t")
+
+var famOrder = map[string]int{"html-metadata": 1, "html-attributes": 2, "svg-references": 3, "svg": 4, "urls": 5, "nth+colour": 6,
+	"css-syntax": 7, "stylesheets": 8, "selectors": 9, "declarations": 10}
 
 func (c *check) Init(tier string, seed int64) engine.Space {
 	logger.WarningLogger.SetOutput(io.Discard)
@@ -107,8 +111,8 @@ func (c *check) Init(tier string, seed int64) engine.Space {
 	small.add(sp("colour-hsl", append(split("1,) "), "50%", "-1", "1e99", "360", "120", ".5"), T(6, 7), "hsla(", ""), 65536, execColor)
 	c.fams = append(c.fams, small)
 
-	// 6. SVG
-	c.fams = append(c.fams, newSVGFam(tier))
+	// 6. SVG: the syntax of each attribute, then the graphs of references among definitions
+	c.fams = append(c.fams, newSVGFam(tier), newRefFam(tier))
 
 	// 7. URLs
 	urls := &strFam{nm: "urls"}
@@ -118,8 +122,12 @@ func (c *check) Init(tier string, seed int64) engine.Space {
 	urls.add(sp("url-join", split("a:/.#?%2 \\[]@"), T(4, 5), "", ""), 8192, execURLJoin)
 	c.fams = append(c.fams, urls)
 
-	// 8. HTML attribute readers
-	c.fams = append(c.fams, newHTMLFam(tier))
+	// 8. HTML attribute readers; the date grammar of the metadata reader
+	c.fams = append(c.fams, newHTMLFam(tier), newMetaFam(tier))
+
+	// the small families first: when a run is cut by its deadline (a loaded machine, or a defect
+	// that kills a worker in many cases), what is lost is the tail of the largest string spaces
+	sort.SliceStable(c.fams, func(i, j int) bool { return famOrder[c.fams[i].name()] < famOrder[c.fams[j].name()] })
 
 	// development aid: C07_ONLY=<family,family> restricts the run (never set by the registered commands)
 	if only := os.Getenv("C07_ONLY"); only != "" {
@@ -145,14 +153,15 @@ func (c *check) Init(tier string, seed int64) engine.Space {
 		"inputs longer than the stated bounds are not explored; symbols outside an alphabet are assumed to behave like the representative of their class",
 		"external resources are never fetched: stylesheets, images and <use> targets other than data: URLs are answered with an error by a harness-owned fetcher",
 		"\"never loops forever\" is decided up to a CPU budget of 10 s per call (normal cost: microseconds)",
-		"fonts, layout and drawing are not executed (C01 covers them); only parsing, validation, cascade of presentational hints and box building",
+		"fonts, layout and drawing are not executed (C01 covers them); only parsing, validation, cascade of presentational hints and box building; the one exception is the svg-references family, which draws the parsed image (no text) on the recording backend, because clip-path, mask, marker and paint references are only followed when drawing",
+		"a goroutine stack above the engine's limit of 64 MB is reported as unbounded recursion (Go's default limit is 1 GB); the deepest legitimate recursion of the enumerated inputs (nested blocks, reference chains of 3 definitions, box trees of a dozen levels) stays below 100 frames",
 	}
 	if decl.kwErr != "" {
 		assumptions = append(assumptions, "the validators' source could not be read ("+decl.kwErr+"): per-property keywords are missing from the menus")
 	}
 	return engine.Space{
 		Units: c.total, Chunk: 1, Level: "model_checking",
-		Rule:        "per entry point: every string of the prefix tree over that parser's alphabet up to the stated length (index-addressable, shortest first); for validators and descriptors: every name x every token sequence of the stated plans; for HTML attributes: every 0/1/2-deviation document. One state = one guarded call of one entry point on one input; a case is non-trivial when the input is accepted (the parser returns a value rather than its error/ignored result)",
+		Rule:        "per entry point: every string of the prefix tree over that parser's alphabet up to the stated length (index-addressable, shortest first); for validators and descriptors: every name x every token sequence of the stated plans; for HTML attributes: every 0/1/2-deviation document; for W3C dates: every valid form with 1..2 (thorough 3) segments replaced; for SVG references: every functional graph on 1..3 definitions over the kind and reference menus. One state = one guarded call of one entry point on one input; a case is non-trivial when the input is accepted (the parser returns a value rather than its error/ignored result)",
 		Bounds:      bounds,
 		Assumptions: assumptions,
 		BudgetS:     float64(pick(tier, 110, 1500)),
@@ -186,12 +195,19 @@ func (c *check) FeaturesOf(desc string) []string {
 	if len(p) < 2 {
 		return nil
 	}
-	out := []string{p[0]}
-	if p[0] == "boxes.BuildFormattingStructure" {
-		if p[1] != "" {
-			out = append(out, strings.Split(p[1], "+")...)
+	return featuresOf(p[0], p[1])
+}
+
+// featuresOf: the entry point and the tag of the case; the tags of the families whose cases carry
+// several (HTML documents: one per deviating attribute; SVG reference graphs: topology, attributes,
+// kinds) are joined with '+'.
+func featuresOf(entry, tag string) []string {
+	out := []string{entry}
+	if entry == "boxes.BuildFormattingStructure" || strings.HasPrefix(tag, "graph=") {
+		if tag != "" {
+			out = append(out, strings.Split(tag, "+")...)
 		}
 		return out
 	}
-	return append(out, p[1])
+	return append(out, tag)
 }
